@@ -18,6 +18,7 @@ func checkC11(p *Prog, r *Report) {
 	}
 	checkSetPermsPaths(p, r)
 	checkOptionGuards(p, r)
+	checkModTimeEqual(p, r, "C11/SECOND-GRANULARITY")
 	checkTypeTables(p, r)
 	checkFieldBindings(p, r)
 	checkTouchUp(p, r)
